@@ -346,7 +346,7 @@ func roCheck(run *vh.Run, w *roWorld, callee string, drv func(*roWorld, *state.B
 				callee, hex.EncodeToString(w.root), hex.EncodeToString(after)),
 				map[string]interface{}{"callee": callee, "calls": note, "root_before": hex.EncodeToString(w.root), "root_after": hex.EncodeToString(after),
 					"how": "the unguarded host callbacks (luaGetDB, luaGetBalance, luaIsContract, luaNameResolve, …) call this function in queries and view functions"})
-			continue
+			return
 		}
 		if i == 0 {
 			if err := bs.Commit(); err != nil {
